@@ -492,6 +492,10 @@ class FractionValue:
 
             previous_calculation = calculation
 
+            if fractional_part == L2:
+                # Nothing left to expand (the current approximation is already exact).
+                break
+
             fractional_part = 1 / float(fractional_part - L2)
 
             i += 1
